@@ -351,6 +351,18 @@ func init() {
 			}
 			return false, true
 		},
+		// package time: the monotonic clock start is a constant (no check reads
+		// the clock), and the process-local zone is modelled as UTC
+		"time.runtimeNano": func(ex *Exec, _ *frame, _ *ssa.Function, a []Value) (Value, bool) { return int64(1), true },
+		"(*time.Location).get": func(ex *Exec, _ *frame, fn *ssa.Function, a []Value) (Value, bool) {
+			l, _ := a[0].(*Value)
+			pkg := fn.Pkg
+			utc := ex.global(pkg.Members["utcLoc"].(*ssa.Global))
+			if l == nil || l == ex.global(pkg.Members["localLoc"].(*ssa.Global)) {
+				return utc, true
+			}
+			return l, true
+		},
 		"crypto/rand.Read": func(ex *Exec, _ *frame, _ *ssa.Function, a []Value) (Value, bool) {
 			// entropy is never used by the checks (the counter's source is replaced): zeros
 			b := a[0].([]Value)
